@@ -360,6 +360,7 @@ def module_work(name, mod, tier, rng, viols, cells, counters, samples, probe, ca
     # M3: converse - generated check characters on fresh payloads are never a checksum error.  All mapped
     # generators of a length class are applied in order of position; a checksum failure is attributed to a
     # generator only if some other character at its check position would have been accepted.
+    conf_by_class, cases_by_class, conf_example = {}, {}, {}
     for L, rules in mapped_rules.items():
         rules.sort(key=lambda t: t[2][1])
         checkpos = set()
@@ -396,6 +397,8 @@ def module_work(name, mod, tier, rng, viols, cells, counters, samples, probe, ca
                 evals += 2
                 cells.add((name, 'm3', L, ''.join(w[q] for q in sorted(checkpos))))
                 counters['converse_cases'] += 1
+                gk = (L, w[:2] if w[:1].isalpha() else w[:4])
+                cases_by_class[gk] = cases_by_class.get(gk, 0) + 1
                 if o[0] == 've' and o[1] == 'InvalidChecksum':
                     blamed = None
                     for gname, g, (kind, i, k) in rules:
@@ -416,11 +419,24 @@ def module_work(name, mod, tier, rng, viols, cells, counters, samples, probe, ca
                             blamed = None   # the accepted alternative is read as a number of another length class (other scheme)
                     if blamed is None:
                         counters['converse_confounded_by_other_checks'] += 1
+                        gk = (L, w[:2] if w[:1].isalpha() else w[:4])
+                        conf_by_class[gk] = conf_by_class.get(gk, 0) + 1
+                        conf_example.setdefault(gk, w)
                         continue
                     add(viols, 'C05|%s|%s|generated-check-rejected-as-checksum-error' % (name, blamed[0].split('[')[0]),
                         '%r (payload completed with the generated check characters) is rejected with InvalidChecksum '
                         'while %r at position %d is accepted' % (w, blamed[2], blamed[1]),
                         {'module': name, 'number': w, 'generator': blamed[0], 'kind': 'm3'})
+    # M3b: an independent check the module does not expose fails nine payloads in ten; a generator that disagrees with
+    # the validator on a rare value (a remainder of 10 folded differently) fails a few per cent of them
+    for gk, nconf in conf_by_class.items():
+        L = gk[0]
+        ncases = cases_by_class.get(gk, 0)
+        if ncases >= 30 and 2 <= nconf <= 0.3 * ncases:
+            add(viols, 'C05|%s|generated-check-rejected-for-some-payloads' % name,
+                '%d of %d payloads of length %d completed with the generated check characters are rejected with InvalidChecksum and no other '
+                'character at a check position is accepted either (e.g. %r)' % (nconf, ncases, L, conf_example[gk]),
+                {'module': name, 'number': conf_example[gk], 'generator': mapped_rules[L][0][0], 'kind': 'm3'})
     # M4: payloads for which the generator yields no usable check character (a value of another length, such as the
     # '10' of a mod-11 scheme): no character at the check position may then complete them to a valid number, or a
     # valid number would exist whose generated check differs from the one it carries
